@@ -129,6 +129,8 @@ def check(case):
             res.label("kind:" + k)
         if os.path.dirname(rerun_rel):
             res.label("rerun-file:subdir")
+        for v in subdirs.values():
+            res.label("feature-dir:" + ("symlink" if v.startswith("@link:") else ("special-characters" if v != "sub" else "plain")))
         if case.get("stale"):
             res.label("stale-overwritten")
         if any(i["outline"] is not None for f in prog["features"] for i in scenario_instances(f)
@@ -164,7 +166,8 @@ def case_st(draw):
     case = {"program": prog, "stale": draw(st.integers(0, 3)) == 0,
             "rerun_file": draw(st.sampled_from(["rerun.txt", "rerun.txt", "reports/rerun.txt", "features/rerun.features"]))}
     if draw(st.booleans()):
-        case["subdirs"] = {"1": "sub"}
+        # sub-directories: plain, with a blank and a '#' in the name, reached through a symbolic link
+        case["subdirs"] = {"1": draw(st.sampled_from(["sub", "sub", "ticket #12", "with blank", "@link:common"]))}
     if draw(st.integers(0, 4)) == 0:
         # @setup / @teardown inherited from the feature or a rule: only a scenario's OWN tag exempts it from a
         # location selection, so these scenarios are skipped in run 2 like all other unlisted ones
@@ -189,7 +192,8 @@ def explore(rec):
 
 def required_labels(tier):
     return ["no-failures", "failures", "kind:failed", "kind:error", "rerun-file:subdir", "stale-removed",
-            "stale-overwritten", "row-listed", "hook-fault", "listed-name-not-unique", "inherited-@setup/@teardown", "feature.skip()-after-a-failure"]
+            "stale-overwritten", "row-listed", "hook-fault", "listed-name-not-unique", "inherited-@setup/@teardown", "feature.skip()-after-a-failure",
+            "feature-dir:symlink", "feature-dir:special-characters"]
 
 
 KNOWN_PREDICATES = {}
